@@ -21,7 +21,9 @@ pub const MAP_CAP: usize = 2; // signals per harness
 pub const ORD_CAP: usize = 3; // actions per signal per harness
 #[derive(Clone)]
 pub struct SmallMap<K, V> {
-    items: [Option<(K, V)>; MAP_CAP],
+    // values are boxed so that moving/cloning the map moves pointers, not 300-byte slots (the model
+    // checker's formula size is dominated by copies of large values)
+    items: [Option<(K, Box<V>)>; MAP_CAP],
 }
 impl<K: PartialEq + Copy, V> SmallMap<K, V> {
     pub fn new() -> Self {
@@ -42,13 +44,13 @@ impl<K: PartialEq + Copy, V> SmallMap<K, V> {
     }
     pub fn get(&self, k: &K) -> Option<&V> {
         match self.pos(k) {
-            Some(i) => self.items[i].as_ref().map(|kv| &kv.1),
+            Some(i) => self.items[i].as_ref().map(|kv| &*kv.1),
             None => None,
         }
     }
     pub fn get_mut(&mut self, k: &K) -> Option<&mut V> {
         match self.pos(k) {
-            Some(i) => self.items[i].as_mut().map(|kv| &mut kv.1),
+            Some(i) => self.items[i].as_mut().map(|kv| &mut *kv.1),
             None => None,
         }
     }
@@ -69,7 +71,7 @@ pub struct Occupied<'a, K, V> {
 }
 impl<'a, K, V> Occupied<'a, K, V> {
     pub fn get_mut(&mut self) -> &mut V {
-        &mut self.map.items[self.i].as_mut().unwrap().1
+        &mut *self.map.items[self.i].as_mut().unwrap().1
     }
 }
 pub struct Vacant<'a, K, V> {
@@ -84,8 +86,8 @@ impl<'a, K, V> Vacant<'a, K, V> {
             assert!(self.map.items[1].is_none(), "harness capacity: at most MAP_CAP signals (harness bug, not a property)");
             1
         };
-        self.map.items[i] = Some((self.k, v));
-        &mut self.map.items[i].as_mut().unwrap().1
+        self.map.items[i] = Some((self.k, Box::new(v)));
+        &mut *self.map.items[i].as_mut().unwrap().1
     }
 }
 
@@ -308,6 +310,7 @@ unsafe fn setup_old(handler_kind: u8) {
 #[kani::proof]
 #[kani::unwind(7)]
 #[kani::stub(half_lock::WriteGuard::<T>::store, half_lock::verif_contract::store_contract)]
+#[kani::stub(alloc::sync::Arc::<T, A>::drop_slow, half_lock::verif_contract::arc_drop_slow_stub)]
 fn c05_history() {
     lm::link();
     let a: c_int = kani::any();
@@ -486,6 +489,7 @@ fn on_sigaction_installed() {}
 #[kani::proof]
 #[kani::unwind(7)]
 #[kani::stub(half_lock::WriteGuard::<T>::store, half_lock::verif_contract::store_contract)]
+#[kani::stub(alloc::sync::Arc::<T, A>::drop_slow, half_lock::verif_contract::arc_drop_slow_stub)]
 fn c04_chain() {
     lm::link();
     let a: c_int = kani::any();
@@ -656,6 +660,7 @@ unsafe fn quiescent() -> bool {
 #[kani::proof]
 #[kani::unwind(7)]
 #[kani::stub(half_lock::WriteGuard::<T>::store, half_lock::verif_contract::store_contract)]
+#[kani::stub(alloc::sync::Arc::<T, A>::drop_slow, half_lock::verif_contract::arc_drop_slow_stub)]
 #[kani::stub(core::sync::atomic::Atomic::<usize>::fetch_add, half_lock::verif_contract::fetch_add_counting)]
 fn c05_op_unregister() {
     unsafe { op_unregister(arbitrary_state()) }
@@ -663,6 +668,7 @@ fn c05_op_unregister() {
 #[kani::proof]
 #[kani::unwind(7)]
 #[kani::stub(half_lock::WriteGuard::<T>::store, half_lock::verif_contract::store_contract)]
+#[kani::stub(alloc::sync::Arc::<T, A>::drop_slow, half_lock::verif_contract::arc_drop_slow_stub)]
 #[kani::stub(core::sync::atomic::Atomic::<usize>::fetch_add, half_lock::verif_contract::fetch_add_counting)]
 fn c05_op_unregister_small() {
     unsafe { op_unregister(arbitrary_state_shape(1, 1, true)) }
@@ -707,6 +713,7 @@ unsafe fn op_unregister_signal(st: St) {
 #[kani::proof]
 #[kani::unwind(7)]
 #[kani::stub(half_lock::WriteGuard::<T>::store, half_lock::verif_contract::store_contract)]
+#[kani::stub(alloc::sync::Arc::<T, A>::drop_slow, half_lock::verif_contract::arc_drop_slow_stub)]
 #[kani::stub(core::sync::atomic::Atomic::<usize>::fetch_add, half_lock::verif_contract::fetch_add_counting)]
 fn c05_op_unregister_signal() {
     unsafe { op_unregister_signal(arbitrary_state()) }
@@ -714,6 +721,7 @@ fn c05_op_unregister_signal() {
 #[kani::proof]
 #[kani::unwind(7)]
 #[kani::stub(half_lock::WriteGuard::<T>::store, half_lock::verif_contract::store_contract)]
+#[kani::stub(alloc::sync::Arc::<T, A>::drop_slow, half_lock::verif_contract::arc_drop_slow_stub)]
 #[kani::stub(core::sync::atomic::Atomic::<usize>::fetch_add, half_lock::verif_contract::fetch_add_counting)]
 fn c05_op_unregister_signal_small() {
     unsafe { op_unregister_signal(arbitrary_state_shape(1, 1, true)) }
@@ -744,6 +752,7 @@ unsafe fn op_register_occupied(st: St) {
 #[kani::proof]
 #[kani::unwind(7)]
 #[kani::stub(half_lock::WriteGuard::<T>::store, half_lock::verif_contract::store_contract)]
+#[kani::stub(alloc::sync::Arc::<T, A>::drop_slow, half_lock::verif_contract::arc_drop_slow_stub)]
 #[kani::stub(core::sync::atomic::Atomic::<usize>::fetch_add, half_lock::verif_contract::fetch_add_counting)]
 fn c05_op_register_occupied() {
     unsafe { op_register_occupied(arbitrary_state()) }
@@ -751,6 +760,7 @@ fn c05_op_register_occupied() {
 #[kani::proof]
 #[kani::unwind(7)]
 #[kani::stub(half_lock::WriteGuard::<T>::store, half_lock::verif_contract::store_contract)]
+#[kani::stub(alloc::sync::Arc::<T, A>::drop_slow, half_lock::verif_contract::arc_drop_slow_stub)]
 #[kani::stub(core::sync::atomic::Atomic::<usize>::fetch_add, half_lock::verif_contract::fetch_add_counting)]
 fn c05_op_register_occupied_small() {
     unsafe { op_register_occupied(arbitrary_state_shape(1, 0, true)) }
@@ -786,6 +796,7 @@ fn at_sigaction(sig: c_int, act_set: bool) {
 #[kani::proof]
 #[kani::unwind(7)]
 #[kani::stub(half_lock::WriteGuard::<T>::store, half_lock::verif_contract::store_contract)]
+#[kani::stub(alloc::sync::Arc::<T, A>::drop_slow, half_lock::verif_contract::arc_drop_slow_stub)]
 fn c04_op_register_vacant() {
     lm::link();
     unsafe {
@@ -835,6 +846,7 @@ pub fn delivery_wait_stub() {
 #[kani::proof]
 #[kani::unwind(7)]
 #[kani::stub(half_lock::WriteGuard::<T>::store, half_lock::verif_contract::store_contract)]
+#[kani::stub(alloc::sync::Arc::<T, A>::drop_slow, half_lock::verif_contract::arc_drop_slow_stub)]
 #[kani::stub(std::sync::Mutex::<T>::lock, delivery_lock_stub)]
 #[kani::stub(std::thread::yield_now, delivery_wait_stub)]
 #[kani::stub(core::sync::atomic::spin_loop_hint, delivery_wait_stub)]
@@ -876,6 +888,7 @@ fn c02_op_handler() {
 #[kani::proof]
 #[kani::unwind(7)]
 #[kani::stub(half_lock::WriteGuard::<T>::store, half_lock::verif_contract::store_contract)]
+#[kani::stub(alloc::sync::Arc::<T, A>::drop_slow, half_lock::verif_contract::arc_drop_slow_stub)]
 fn c14_op_register_refused() {
     lm::link();
     unsafe {
